@@ -209,7 +209,9 @@ func (r *Reader) Read(p []byte) (int, error) {
 	}
 	if r.concReader.ready() {
 		n, err := r.concReader.Read(p)
-		r.err = err
+		if err != io.EOF {
+			r.err = err
+		}
 		return n, err
 	}
 
